@@ -31,6 +31,8 @@ def role_universe(tbl, rng, kmax):
         # one or two instantiations of each pattern
         lit = p.replace('[0-9]+', '7').replace('[0-9]', '3')
         bases.add(lit)
+        if lit.endswith('-of'):
+            bases.add(lit[:-3])
         if '[0-9]+' in p:
             bases.add(p.replace('[0-9]+', '10'))
     for k, v in tbl['norms'].items():
